@@ -11,8 +11,8 @@
 package c16
 
 import (
-	"net/netip"
 	"fmt"
+	"net/netip"
 	"sort"
 	"strings"
 	"testing"
